@@ -38,15 +38,22 @@ def conv_str(conv, key, nals):
 
 
 def _flags(**kw):
-    m = {"conv": "c", "discard": "d", "el_only": "o", "annexb": "a", "drop": "h", "no_add_aud": "n", "eos_before_el": "e"}
+    m = {"conv": "c", "discard": "d", "el_only": "o", "annexb": "a", "drop": "h", "no_add_aud": "n", "eos_before_el": "e", "late": "L"}
     s = "".join(m[k] for k, v in kw.items() if v)
     return s or "-"
 
 
-def general_line(cmd, items, conv, key=None, discard=False, el_only=False, start_code=None, drop=False):
+def first_nal_late(data, chunk):
+    """file input: the first read of `chunk` bytes is full and holds a single start code — hevc_parser then delivers an
+    empty NAL list first and the first NAL of the stream is not recognised as such (model: `generalFrom true`)"""
+    chunk = chunk or 100000
+    return len(data) >= chunk and data[:chunk].count(b"\x00\x00\x01") == 1
+
+
+def general_line(cmd, items, conv, key=None, discard=False, el_only=False, start_code=None, drop=False, late=False):
     rpus = [it[1] for it in items if it[0] == H.UNSPEC62]
     return "hevc.general %s %s %s %s" % (
-        cmd, _flags(conv=key is not None, discard=discard, el_only=el_only, annexb=start_code == "annex-b", drop=drop),
+        cmd, _flags(conv=key is not None, discard=discard, el_only=el_only, annexb=start_code == "annex-b", drop=drop, late=late),
         conv_str(conv, key, rpus), items_str(items))
 
 
